@@ -166,21 +166,27 @@ def gen_plan(streams, tier):
     p_pattern = rnd.choice((0.1, 0.3))
     ops = []
     nops = rnd.randrange(5, 41)
+    lens = [len(od["seq"]) for od in objs]
+    strs = [od["seq"] for od in objs]
     while len(ops) < nops:
-        o = rnd.randrange(nobj)
-        N = len(objs[o]["seq"])
+        o = rnd.randrange(len(lens))
+        if len(lens) > nobj and rnd.random() < 0.3:
+            o = len(lens) - 1
+        N = lens[o]
         x = rnd.random()
         if x < p_pattern:
             pat = copy.deepcopy(rnd.choice(PATTERNS))
-            two = nobj > 1 and rnd.random() < 0.4
+            two = len(lens) > 1 and rnd.random() < 0.4
             for q in pat:
                 ops.append({"o": o, "q": q})
                 if two:
-                    ops.append({"o": (o + 1) % nobj, "q": copy.deepcopy(q)})
+                    ops.append({"o": (o + 1) % len(lens), "q": copy.deepcopy(q)})
         elif x < p_pattern + p_mut:
-            ops.append({"o": o, "m": gen_mutator(rnd, objs[o]["seq"])})
+            ops.append({"o": o, "m": gen_mutator(rnd, strs[o])})
         elif x < p_pattern + p_mut + 0.08:
             ops.append({"o": o, "shuffle": {"fz": sorted(rnd.sample(range(N), rnd.randrange(0, N))) if rnd.random() < 0.5 else []}})
+            lens.append(N)
+            strs.append(strs[o])
         else:
             ops.append({"o": o, "q": gen_query(rnd, N, p_invalid)})
     return {"property": ID, "run_seed": streams.run_seed, "objects": objs, "ops": ops}
